@@ -657,10 +657,11 @@ def _read_member(field: Field, field_type: type[BaseType], stream: BinaryIO, con
     return bit_buffer.read(field_type, field.bits)
 
 
-def _write_member(field: Field, field_type: type[BaseType], stream: BinaryIO, value: Any) -> None:
+def _write_member(field: Field, field_type: type[BaseType], stream: BinaryIO, value: Any, keep: bool = False) -> None:
     """Write a member of a union, the counterpart of :func:`_read_member`.
 
-    The other bits of the storage unit of a bit field are kept as they are in the stream (zero if there is nothing).
+    With ``keep`` (the stream is the buffer of a union) the other bits of the storage unit of a bit field are kept
+    as they are in the stream, otherwise (the stream is an output) they are zero and the stream is only written to.
     """
     if not field.bits:
         field_type._write(stream, value)
@@ -668,9 +669,11 @@ def _write_member(field: Field, field_type: type[BaseType], stream: BinaryIO, va
 
     unit_type = field_type.type if isinstance(field_type, EnumMetaType) else field_type
     order = "little" if field_type.cs.endian == "<" else "big"
-    position = stream.tell()
-    unit = int.from_bytes(stream.read(unit_type.size).ljust(unit_type.size, b"\x00"), order)
-    stream.seek(position)
+    unit = 0
+    if keep:
+        position = stream.tell()
+        unit = int.from_bytes(stream.read(unit_type.size).ljust(unit_type.size, b"\x00"), order)
+        stream.seek(position)
 
     scratch = io.BytesIO()
     bit_buffer = BitBuffer(scratch, field_type.cs.endian)
@@ -720,7 +723,7 @@ class Union(Structure, metaclass=UnionMetaType):
         if (value := getattr(self, attr)) is None:
             value = field.type.__default__()
 
-        _write_member(field, field.type, buf, value)
+        _write_member(field, field.type, buf, value, keep=True)
 
         object.__setattr__(self, "_buf", buf.getvalue())
         self._update()
